@@ -31,6 +31,8 @@ import SpecKitV.Drv.ExtLpsdCore
 import SpecKitV.Drv.ExtResultQueries
 import SpecKitV.Drv.ExtSchedGlue
 import SpecKitV.Drv.ExtConfigGlue
+import SpecKitV.Drv.ExtBuildQ
+import SpecKitV.Drv.ExtEntryPoints
 
 namespace Drv
 
@@ -456,7 +458,7 @@ def dispatch : M String := do
   | "genutil" => opGenUtil
   | "ping" => pure "pong"
   | _ =>
-    match (ExtNumpyKernels.dispatch op <|> ExtRms.dispatch op <|> ExtTimeShift.dispatch op <|> ExtMiso.dispatch op <|> ExtNoiseGens.dispatch op <|> ExtFftNoise.dispatch op <|> ExtLpsdCore.dispatch op <|> ExtResultQueries.dispatch op <|> ExtSchedGlue.dispatch op <|> ExtConfigGlue.dispatch op) with
+    match (ExtNumpyKernels.dispatch op <|> ExtRms.dispatch op <|> ExtTimeShift.dispatch op <|> ExtMiso.dispatch op <|> ExtNoiseGens.dispatch op <|> ExtFftNoise.dispatch op <|> ExtLpsdCore.dispatch op <|> ExtResultQueries.dispatch op <|> ExtSchedGlue.dispatch op <|> ExtConfigGlue.dispatch op <|> ExtBuildQ.dispatch op <|> ExtEntryPoints.dispatch op) with
     | some h => h
     | none => throw s!"op:{op}"
 
